@@ -31,6 +31,9 @@ def scenario(tier):
             b.mkfile("R/d/new.txt", 3)
         crash_at = sym.int("crash_at", 0, MAXOPS[tier]) if not sym.symbolic else sym.choose("crash_at", list(range(MAXOPS[tier] + 1)))
         torn = sym.flag("torn_write")
+        same_second = sym.flag("next_is_single_file_create_in_the_same_second")
+        if same_second:
+            b.tick = 0
         r = b.run("create", root="R", h=["md5"], crash_at=crash_at, torn=torn)
         if r.exit != "killed":
             sym.assume(False)  # the run has fewer operations than crash_at: not a crash point
@@ -78,6 +81,11 @@ def scenario(tier):
                 listed = any(e.path == new[0] for e in ch)
                 b.require(listed, "manifest-present-but-not-chained", "%s: %s/ascmhl/%s exists but the chain does not list it" % (tag, hr, new[0]), soft=True)
         # the next commands load the history normally
+        if same_second:
+            # same generation number, same second: the run writes to the very temporary names the killed run left behind
+            r2 = b.run("create", root="R", h=["md5"], sf=["R/a.txt"])
+            b.tick = 10
+            b.require(r2.exit == 0 and r2.exc is None, "next-command-aborts", "%s: create -sf afterwards exits %s (%s)" % (tag, r2.exit, r2.exc))
         for cmd in ("info", "verify", "create"):
             if cmd == "info" and prior == 0 and not b.manifest_names("R"):
                 continue
@@ -118,6 +126,14 @@ def long_name(b, sym):
             if type(ex).__name__ not in ("XMLSyntaxError", "ParseError", "ValueError"):
                 raise
             b.require(False, "half-written-manifest-under-final-name", "%s: new manifest (name of %d characters) is not well-formed" % (tag, len(n)))
+    if sym.flag("folder_renamed_back_after_the_kill"):
+        # the folder gets its shorter name back: the next chain is shorter than a chain temp file the killed run may have left
+        b.rename(long_, short)
+        long_ = short
+        r2 = b.run("create", root=long_, h=["md5"])
+        b.require(r2.exit == 0 and r2.exc is None, "next-command-aborts", "%s: create after renaming the folder back exits %s (%s)" % (tag, r2.exit, r2.exc))
+        r2 = b.run("info", root=long_)
+        b.require(r2.exit == 0 and r2.exc is None, "next-command-aborts", "%s: info after renaming the folder back and a create exits %s (%s)" % (tag, r2.exit, r2.exc))
     r2 = b.run("verify", root=long_)
     b.require(r2.exit in (0, 21) and r2.exc is None or r2.exit == 21, "next-command-aborts", "%s: verify afterwards exits %s (%s)" % (tag, r2.exit, r2.exc))
 
